@@ -3,7 +3,9 @@
  * waits for it; the initialiser may yield, block on a mutex or create threads.
  * args: seed= progs= nw=
  */
+#ifndef _GNU_SOURCE
 #define _GNU_SOURCE
+#endif
 #include "hkm.h"
 
 #define NCTL 64
